@@ -7,6 +7,8 @@ Deliberately NOT the universal-variable (Stumpff/Stiefel) formulation used by RE
 
 All inputs are taken as exact binary doubles (mpf(float) is exact).  Working precision DPS digits.
 """
+import math
+
 import mpmath
 from mpmath import mp, mpf
 
@@ -22,9 +24,29 @@ def _cross(a, b):
     return (a[1] * b[2] - a[2] * b[1], a[2] * b[0] - a[0] * b[2], a[0] * b[1] - a[1] * b[0])
 
 
-def _solve_monotone(f, fp, lo, hi):
-    """Root of an increasing function f in [lo,hi] (f(lo)<=0<=f(hi)): bisection to 2^-8 of the bracket,
-    then Newton steps that are rejected (replaced by bisection) whenever they leave the bracket."""
+def _solve_monotone(f, fp, lo, hi, guess=None):
+    """Root of an increasing function f in [lo,hi] (f(lo)<=0<=f(hi)).
+    Fast path: Newton from `guess` (a double-precision estimate); the result is accepted only if f changes sign
+    across [x-d, x+d] with d ~ 10^-(dps-8) relative, i.e. the root is *verified*, independently of how it was
+    found.  Otherwise: bisection to 2^-8 of the bracket, then Newton steps that are replaced by bisection
+    whenever they leave the bracket."""
+    tol = mpf(10) ** (-(mp.dps - 6))
+    if guess is not None and lo < guess < hi:
+        x = mpf(guess)
+        for _ in range(12):
+            d = fp(x)
+            if d == 0:
+                break
+            xn = x - f(x) / d
+            if not (lo <= xn <= hi):
+                break
+            done = abs(xn - x) <= tol * (abs(xn) + mpf(10) ** (-mp.dps))
+            x = xn
+            if done:
+                dd = 100 * tol * (abs(x) + mpf(10) ** (-mp.dps + 10))
+                if f(x - dd) <= 0 <= f(x + dd):
+                    return x
+                break
     flo, fhi = f(lo), f(hi)
     if flo == 0:
         return lo
@@ -42,7 +64,6 @@ def _solve_monotone(f, fp, lo, hi):
         else:
             hi = mid
     x = (lo + hi) / 2
-    tol = mpf(10) ** (-(mp.dps - 6))
     for _ in range(200):
         fx = f(x)
         if fx == 0:
@@ -61,7 +82,21 @@ def _solve_monotone(f, fp, lo, hi):
     raise ArithmeticError("oracle Kepler solve did not converge")
 
 
-def propagate(r0, v0, mu, dt, info=None):
+def _float_root(g, lo, hi):
+    """Double-precision bisection estimate of the root of increasing g on [lo,hi] (only a starting guess)."""
+    try:
+        for _ in range(60):
+            mid = 0.5 * (lo + hi)
+            if g(mid) < 0:
+                lo = mid
+            else:
+                hi = mid
+        return 0.5 * (lo + hi)
+    except (OverflowError, ValueError):
+        return None
+
+
+def propagate(r0, v0, mu, dt, info=None, guess=None):
     """r0, v0: 3 floats each (relative position / velocity), mu=G*M (float), dt (float).
     Returns (r, v) as tuples of mpf.  `info` (dict) receives a, e, kind, M."""
     old = mp.dps
@@ -102,8 +137,12 @@ def propagate(r0, v0, mu, dt, info=None):
             twopi = 2 * mp.pi
             k = mpmath.floor(M / twopi + mpf(1) / 2)
             Mr = M - k * twopi                                              # in [-pi, pi]
+            if guess is None:
+                ef, Mf = float(e), float(Mr)
+                guess = _float_root(lambda x: x - ef * math.sin(x) - Mf, -3.3, 3.3)
             E = _solve_monotone(lambda x: x - e * mpmath.sin(x) - Mr, lambda x: 1 - e * mpmath.cos(x),
-                                -mp.pi - mpf(1) / 8, mp.pi + mpf(1) / 8)
+                                -mp.pi - mpf(1) / 8, mp.pi + mpf(1) / 8, guess)
+            root = E
             cE, sE = mpmath.cos(E), mpmath.sin(E)
             b = a * mpmath.sqrt(1 - e * e)
             Ed = n / (1 - e * cE)
@@ -121,8 +160,12 @@ def propagate(r0, v0, mu, dt, info=None):
             lo = mpmath.asinh(Ma / e)
             hi = mpmath.asinh(Ma / (e - 1))
             pad = (hi - lo) / 1024 + mpf(10) ** (-mp.dps + 8) * (1 + hi)
+            if guess is None:
+                ef, Mf = float(e), float(Ma)
+                guess = _float_root(lambda x: ef * math.sinh(x) - x - Mf, float(lo), float(hi) * (1 + 1e-9) + 1e-300)
             Ha = _solve_monotone(lambda x: e * mpmath.sinh(x) - x - Ma, lambda x: e * mpmath.cosh(x) - 1,
-                                 max(lo - pad, mpf(0)) if Ma > 0 else mpf(0) - pad, hi + pad)
+                                 max(lo - pad, mpf(0)) if Ma > 0 else mpf(0) - pad, hi + pad, guess)
+            root = Ha
             H = s * Ha
             cH, sH = mpmath.cosh(H), mpmath.sinh(H)
             b = aa * mpmath.sqrt(e * e - 1)
@@ -133,7 +176,7 @@ def propagate(r0, v0, mu, dt, info=None):
         v = tuple(Xd * P[i] + Yd * Q[i] for i in range(3))
         if info is not None:
             info.update(a=float(a), e=float(e), kind=kind, M=float(M), n=float(n),
-                        q=float(abs(a) * abs(1 - e)))
+                        q=float(abs(a) * abs(1 - e)), root=root)
         return r, v
     finally:
         mp.dps = old
@@ -147,7 +190,9 @@ def propagate_cond(r0, v0, mu, dt, rel=2 * EPS, info=None):
     old = mp.dps
     mp.dps = DPS
     try:
-        r, v = propagate(r0, v0, mu, dt, info)
+        inf0 = info if info is not None else {}
+        r, v = propagate(r0, v0, mu, dt, inf0)
+        g0 = inf0.get("root")
         dpos = mpf(0)
         dvel = mpf(0)
         base = [mpf(x) for x in r0] + [mpf(x) for x in v0] + [mpf(mu), mpf(dt)]
@@ -156,10 +201,38 @@ def propagate_cond(r0, v0, mu, dt, rel=2 * EPS, info=None):
                 continue
             p = list(base)
             p[i] = p[i] * (1 + mpf(rel))
-            r2, v2 = propagate(p[0:3], p[3:6], p[6], p[7])
+            r2, v2 = propagate(p[0:3], p[3:6], p[6], p[7], guess=g0)
             dpos += mpmath.sqrt(sum((r2[k] - r[k]) ** 2 for k in range(3)))
             dvel += mpmath.sqrt(sum((v2[k] - v[k]) ** 2 for k in range(3)))
         return r, v, float(dpos), float(dvel)
+    finally:
+        mp.dps = old
+
+
+def propagate_sens(r0, v0, mu, dt, hpos, hvel):
+    """Error propagation: sum over the six state components of the change of the reference output when that
+    component of the initial state is shifted by the absolute amount hpos (positions) / hvel (velocities).
+    Bounds (to first order) the output error caused by any initial-state error e with |e_i| <= h_i.
+    Returns (dpos, dvel) floats."""
+    old = mp.dps
+    mp.dps = DPS
+    try:
+        inf0 = {}
+        r, v = propagate(r0, v0, mu, dt, inf0)
+        g0 = inf0.get("root")
+        base = [mpf(x) for x in r0] + [mpf(x) for x in v0]
+        dpos = mpf(0)
+        dvel = mpf(0)
+        for i in range(6):
+            h = mpf(hpos if i < 3 else hvel)
+            if h == 0:
+                continue
+            p = list(base)
+            p[i] = p[i] + h
+            r2, v2 = propagate(p[0:3], p[3:6], mu, dt, guess=g0)
+            dpos += mpmath.sqrt(sum((r2[k] - r[k]) ** 2 for k in range(3)))
+            dvel += mpmath.sqrt(sum((v2[k] - v[k]) ** 2 for k in range(3)))
+        return float(dpos), float(dvel)
     finally:
         mp.dps = old
 
